@@ -109,6 +109,16 @@ def introspect():
             res['errors'].append('probe %s/%s: %s: %s' % (m, kind, type(e).__name__, e))
     res['iterUnwrapped'] = unwrapped
 
+    def notifies_on_error(cls, sample, name, args, exc):
+        o = ProbeObj(); t = cls(o, attr, sample)
+        try: getattr(t, name)(*args)
+        except exc: return o.changed > 0
+        res['errors'].append('%s.%s%r did not raise %s' % (cls.__name__, name, args, exc.__name__)); return False
+    ne = [notifies_on_error(TrackedList, [], 'pop', (), IndexError), notifies_on_error(TrackedDict, {}, 'pop', ('zz',), KeyError),
+          notifies_on_error(TrackedArray, [], 'pop', (), IndexError)]
+    if len(set(ne)) != 1: res['errors'].append('notification after an exception differs between the classes: %r' % ne)
+    res['notifyOnError'] = all(ne)
+
     def notifies(cls, sample, name, args):
         o = ProbeObj()
         t = cls(o, attr, sample)
@@ -149,7 +159,8 @@ def render(f):
              '  dictOv := %s,' % lst(f['dictOv'], DM),
              '  arrOv := %s,' % lst(f['arrOv'], LM),
              '  makeTuple := %s,' % ('true' if f['makeTuple'] else 'false'),
-             '  iterUnwrapped := [%s] }' % ', '.join('(.%s, .%s)' % (m, k) for m, k in f['iterUnwrapped']),
+             '  iterUnwrapped := [%s],' % ', '.join('(.%s, .%s)' % (m, k) for m, k in f['iterUnwrapped']),
+             '  notifyOnError := %s }' % ('true' if f['notifyOnError'] else 'false'),
              '',
              '/-- methods whose call on a bound instance reached `obj._attr_changed_` (probed; cross-check of `table`) -/',
              'def listNotify : List LM := %s' % lst(f['listNotify'], LM),
